@@ -50,6 +50,9 @@ def run(tier, rep, replay=None):
     lbad, _ = C.validate_lines(d, "Trace_Large", "Lines.cfg", llines)
     for i in lbad:
         ln = llines[i]
+        if ln["ev"] == "longval":
+            rep.violation("tkn20:long-values:len=%d:%s" % (ln["len"], "panic" if ln["panics"] else "wrong-answer"), {"observed": ln, "explain": "attribute values that differ only in their last character are not told apart (Trace_Large.tla)"})
+            continue
         if ln["ev"] == "reject":
             rep.violation("tkn20:parse:trailing-tokens:%s" % ("panic" if ln["panics"] else "accepted"), {"observed": ln, "explain": "a policy followed by further tokens is not in the policy language but the parser accepted it (as the printed policy) (Trace_Large.tla)"})
             continue
@@ -57,7 +60,7 @@ def run(tier, rep, replay=None):
             rep.violation("tkn20:print-after-use:%s" % ("panic" if ln["panics"] else ("reparse" if not ln["reparse_ok"] else ("answers-differ" if not ln["agree"] else "policy-changed-by-query"))), {"observed": ln, "explain": "a policy printed after it has been used does not parse back to an equivalent policy (Trace_Large.tla)"})
             continue
         rep.violation("tkn20:large-policy:leaves=%d:%s" % (ln["leaves"], "panic" if ln["panics"] else "undecryptable"), {"observed": ln, "explain": "Encrypt accepted the policy but the satisfying key cannot decrypt (Trace_Large.tla)"})
-    rep.add(large_policies=[l["leaves"] for l in llines if l["ev"] == "large"], printed_policies=sum(1 for l in llines if l["ev"] == "print"), rejected_policy_strings=sum(1 for l in llines if l["ev"] == "reject"))
+    rep.add(long_value_lengths=[l["len"] for l in llines if l["ev"] == "longval"], large_policies=[l["leaves"] for l in llines if l["ev"] == "large"], printed_policies=sum(1 for l in llines if l["ev"] == "print"), rejected_policy_strings=sum(1 for l in llines if l["ev"] == "reject"))
     if thorough:
         # quick enumerates <=2 leaves completely; thorough <=3 leaves (16 648 formulas), all decrypted
         args = ["-ndec", "16648", "-ntamper", "3000"]
